@@ -312,7 +312,7 @@ func (r *psRun) cancelIter(s *psSub, probe string) {
 		if s.wdInv == 0 {
 			s.wdInv = s.cancelInv
 		}
-			simrt.Fault("ctx_cancel")
+		simrt.Fault("ctx_cancel")
 		if probe != "" {
 			simrt.Probe(probe)
 		}
@@ -339,7 +339,7 @@ func (r *psRun) iterLoop(s *psSub) {
 			}
 			if s.cancelInv == 0 {
 				broke = true
-						}
+			}
 			simrt.Probe("iterator_early_break")
 			break
 		}
